@@ -65,16 +65,42 @@ def extract(src="/repo", config="R", target_dir=None, use_cache=True, quiet=True
     os.makedirs(os.path.join(CACHE, "facts"), exist_ok=True)
     out = os.path.join(CACHE, "facts", "%s-%s-%s.json" % (th, config, crate) if crate != "uflow" else "%s-%s.json" % (th, config))
     meta = {"config": config, "tree_hash": th, "src": src, "cached": False}
-    if use_cache and os.path.exists(out):
-        try:
-            facts = json.load(open(out))
-            meta["cached"] = True
-            meta["facts_file"] = out
-            return facts, meta
-        except Exception:
-            os.unlink(out)
+    def _cached():
+        if use_cache and os.path.exists(out):
+            try:
+                facts = json.load(open(out))
+                meta["cached"] = True
+                meta["facts_file"] = out
+                return facts
+            except Exception:
+                try:
+                    os.unlink(out)
+                except OSError:
+                    pass
+        return None
+
+    facts = _cached()
+    if facts is not None:
+        return facts, meta
     tdir = target_dir or os.path.join(CACHE, "tgt-" + config)
     os.makedirs(tdir, exist_ok=True)
+    # one extraction at a time per target directory: concurrent checks (parallel runs of ./check on an
+    # uncached tree) would otherwise race on cargo's fingerprints and one of them would find the driver
+    # skipped.  After waiting, the other process may already have produced the facts for this tree.
+    import fcntl
+    lockf = open(os.path.join(tdir, ".uflow-facts.lock"), "w")
+    fcntl.flock(lockf, fcntl.LOCK_EX)
+    try:
+        facts = _cached()
+        if facts is not None:
+            return facts, meta
+        return _extract_locked(src, config, crate, tdir, out, meta)
+    finally:
+        fcntl.flock(lockf, fcntl.LOCK_UN)
+        lockf.close()
+
+
+def _extract_locked(src, config, crate, tdir, out, meta):
     # cargo silently skips the wrapper on a warm target dir: drop the member's fingerprints
     fpd = os.path.join(tdir, "debug", ".fingerprint")
     if os.path.isdir(fpd):
